@@ -219,7 +219,7 @@ func (m *monitor) tick(before, after snapshot, judge bool) {
 
 func (m *monitor) frame(s sym, user string, before, after snapshot, em []outFrame, judge bool) {
 	ob := m.c.obs
-	src := peerMACs[s.Src].String()
+	src := s.srcMAC().String()
 	if s.K == kPADR {
 		m.register(after, src)
 	} else {
@@ -229,7 +229,7 @@ func (m *monitor) frame(s sym, user string, before, after snapshot, em []outFram
 		m.pads(s, src, before, after, em, judge)
 	}
 	target, hasTarget := before.byID(s.ID)
-	if s.K == kPADI || s.K == kPADR {
+	if (s.K == kPADI || s.K == kPADR) && !s.SID {
 		hasTarget = false
 	}
 
@@ -238,7 +238,7 @@ func (m *monitor) frame(s sym, user string, before, after snapshot, em []outFram
 	if s.K.isAuth() && hasTarget {
 		dec = m.decision(user)
 		accepted := dec == "accept" || dec == "no-radius"
-		if s.Dst == 2 && dec == "no-radius" {
+		if s.Dst >= 2 && dec == "no-radius" {
 			// a frame addressed to another station: without a RADIUS log the exchange
 			// counts as completed only if the server answered it
 			accepted = false
@@ -271,7 +271,7 @@ func (m *monitor) frame(s sym, user string, before, after snapshot, em []outFram
 					ob.count("permissions_granted", 1)
 				}
 				sm.authOK = true
-			} else if !(s.Dst == 2 && (dec == "radius-not-consulted" || dec == "not-addressed-to-server")) {
+			} else if !(s.Dst >= 2 && (dec == "radius-not-consulted" || dec == "not-addressed-to-server")) {
 				sm.lastOwner = "not-completed"
 				if dec == "radius-reject" {
 					sm.lastOwner = "rejected"
@@ -301,14 +301,17 @@ func (m *monitor) frame(s sym, user string, before, after snapshot, em []outFram
 		} else {
 			role = "foreign"
 		}
-	} else if s.K != kPADI && s.K != kPADR {
+	} else if (s.K != kPADI && s.K != kPADR) || s.SID {
 		role = "dead-id"
 	}
 	if judge {
 		ob.count("frames_delivered", 1)
 		ob.count("frame_"+kindName[s.K]+"_"+role, 1)
 		if s.Dst != 0 {
-			ob.count(map[int]string{1: "frames_to_broadcast", 2: "frames_to_other_station"}[s.Dst], 1)
+			ob.count(map[int]string{1: "frames_to_broadcast", 2: "frames_to_other_station"}[min(s.Dst, 2)], 1)
+		}
+		if role == "foreign" {
+			m.noteForeign(s, src, target, before)
 		}
 		for _, o := range em {
 			ob.count("sent_"+o.Name(), 1)
